@@ -338,6 +338,37 @@ func (ww *WW) CheckTokenDLEQ(tok *OutToken) {
 		}
 		ww.rc.S.Probe("c10_token_tamper_checked")
 	}
+	// the whole token the way a third party checks it against a keyset (nut12.VerifyProofsDLEQ): accepted
+	// as handed out, refused once one proof claims another amount - a denomination or not
+	if len(tok.Proofs) > 0 && keysetsOf(tok.Proofs) == 1 && tok.Proofs[0].DLEQ != nil && tok.Proofs[0].DLEQ.R != "" {
+		if ks := mb.Keysets[tok.Proofs[0].Id]; ks != nil {
+			wk := crypto.WalletKeyset{Id: tok.Proofs[0].Id, PublicKeys: map[uint64]*secp256k1.PublicKey{}}
+			for a, kh := range ks.Keys {
+				if pk, err := parsePoint(kh); err == nil {
+					wk.PublicKeys[a] = pk
+				}
+			}
+			all := true
+			for _, p := range tok.Proofs {
+				all = all && p.DLEQ != nil && p.DLEQ.R != ""
+			}
+			if all && len(wk.PublicKeys) > 0 {
+				ww.rc.S.Probe("c10_token_keyset_level_checked")
+				if !nut12.VerifyProofsDLEQ(tok.Proofs, wk) {
+					W.Book.Violate("C10.token_dleq_rejected", "token-keyset", "nut12.VerifyProofsDLEQ rejects a token handed out by the wallet")
+				}
+				vi := ww.T.Choose("c10.ktamper.victim", len(tok.Proofs))
+				for _, na := range []uint64{tok.Proofs[vi].Amount * 3, altAmount(tok.Proofs[vi].Amount), 0, tok.Proofs[vi].Amount | 1<<60} {
+					cp := make(cashu.Proofs, len(tok.Proofs))
+					copy(cp, tok.Proofs)
+					cp[vi].Amount = na
+					if nut12.VerifyProofsDLEQ(cp, wk) {
+						W.Book.Violate("C10.tamper_accepted", "token:amount", "nut12.VerifyProofsDLEQ still accepts a token after the amount of proof %d was changed from %d to %d", vi, tok.Proofs[vi].Amount, na)
+					}
+				}
+			}
+		}
+	}
 }
 
 // StepTamperedToken: the token channel alters one DLEQ field of one proof (optionally removing the DLEQ of an
